@@ -1274,7 +1274,7 @@ def ecdh_reuse_search(ctx, K, pair, full):
                 scen.append([("privA", f1 if f1 != "attr" else "obj"), (p1, "obj"), ("sec", "int"), ("sec", "obj"),
                              ("privA2", f2), ("sec", "obj"), (p2, "obj"), ("sec", "int")])
     if not full:
-        scen = scen[:10] + r.sample(scen[10:], 60)
+        scen = scen[:10] + r.sample(scen[10:], 30)
     for ctor in ((None, "A") if full else ("A",)):
         for seq in scen:
             data = {"op": "ecdh-seq", "pair": list(pair), "keys": {k: v.d for k, v in K.items()}, "ctor": ctor,
@@ -1359,7 +1359,7 @@ def ecdh_sequence_search(ctx, full):
         ctx.nontrivial.add(("ecdh-seq-enum", pair, maxlen))
         # every sequence up to length 2 over the extended alphabet (second key pair, attribute assignment, secret
         # in the middle), then the re-use scenarios, then random longer sequences with random encodings
-        for ctor in ((None, "A") if (full or pi == 0) else ()):
+        for ctor in ((None, "A") if full else (("A",) if pi == 0 else ())):
             for ln in (1, 2):
                 for syms in itertools.product(SEQ_SYMS_X, repeat=ln):
                     for form in ("obj", "attr"):
@@ -1368,7 +1368,7 @@ def ecdh_sequence_search(ctx, full):
                                 "seq": [list(x) for x in seq]}
                         run_ecdh_sequence(ctx, K, ctor, seq, data)
         ecdh_reuse_search(ctx, K, pair, full)
-        for _ in range(ctx.budget(60, 400) if not ctx.brokens else 400):
+        for _ in range(ctx.budget(40, 400) if not ctx.brokens else 400):
             ctor = r.choice([None, "A", "B"])
             seq = []
             for _ in range(r.randrange(2, 9)):
